@@ -318,3 +318,7 @@ def run(ctx: Ctx, repo: Repo, tier: str) -> None:
     # the traced types reach the signature update for every parameter of the signature (C10's rule on the same function)
     from . import c10 as _c10
     _c10.rule_params_ignored(ctx, repo)
+    # nothing re-works the signature after update_signature_args / update_signature_return decided, per strategy, what each
+    # position shows (a later rewrite of the finished annotation would alter a kept source annotation)
+    from . import c01 as _c01
+    _c01.rule_updated_definition(ctx, repo, "R-C13.5")
